@@ -89,17 +89,22 @@ def cases(tier, seed):
             if not rs:
                 continue
             tdesc = [patterns.depict_type(t) for t in types]
+            rs_all = rs
             for op in ops:
                 if not applicable(op, len(shape)):
                     continue
                 kind = op['kind']
-                rs_all = rs
-                if op['inplace']:
+                rs = rs_all
+                if op['inplace'] and not op.get('replaces_storage'):
                     # torch itself refuses in-place writes to a self-overlapping (stride-0) tensor;
                     # receivers with an expanded physical tensor are outside the claim
                     rs = [r for r in rs_all if not r['layout'].startswith('expand')]
                     if not rs:
                         rs = rs_all
+                        continue
+                if op.get('mutates_self'):
+                    rs = [r for r in rs if not r['layout'].startswith('expand')]
+                    if not rs:
                         continue
                 if op['n'] == 1:
                     sel = rs if len(rs) <= ucap else rs[:1] + rng.sample(rs[1:], ucap - 1)
@@ -112,7 +117,15 @@ def cases(tier, seed):
                 elif op['n'] == 2:
                     pairs = list(itertools.product(rs, rs_all))
                     if len(pairs) > bcap:
-                        pairs = pairs[:1] + rng.sample(pairs[1:], bcap - 1)
+                        keep = pairs[:1]
+                        if op.get('replaces_storage'):
+                            # copy_ re-uses the destination's storage only if it is dense in some order and as large as the
+                            # source: pair every non-contiguous destination with sources of the same physical size
+                            keep += [(a, b) for a, b in pairs if not a['layout'].startswith('contig')
+                                     and math.prod(a['psizes']) == math.prod(b['psizes'])][:10]
+                        pairs = keep + rng.sample(pairs[1:], bcap - 1)
+                    if op.get('mutates_other'):
+                        pairs = [(a, b) for a, b in pairs if not b['layout'].startswith('expand')]
                     for r1, r2 in pairs:
                         dps = list(itertools.product(DEFAULTS[kind], DEFAULTS[kind]))
                         if op.get('same_default'):
